@@ -263,6 +263,9 @@ pub fn run_case(case: &Arc<Case>, ctx: &Arc<ExecCtx>) -> RunInfo {
             verif::TraceEvent::TimeWritten(s, n) => TraceEv::TimeWritten(s, n),
             verif::TraceEvent::TimeoutFired => TraceEv::TimeoutFired,
         };
+        if matches!(te, TraceEv::TimeWritten(s, n) if (s, n) == node::INNER_T0) {
+            return; // a nested simulation's own clock
+        }
         if matches!(te, TraceEv::TimeoutFired) {
             tctx.timeout_seen.store(true, Ordering::SeqCst);
         }
